@@ -121,6 +121,10 @@ class SchemaGen:
             s["items"] = [self.schema(depth + 1) for _ in range(r.randint(1, 3))]
             if self.coin(0.5):
                 s["additionalItems"] = r.choice([False, False, True])
+        if not isinstance(s.get("items"), list) and self.coin(0.3):
+            # the keyword together with single-schema items / without items (no effect on acceptance in
+            # draft 4, but it is part of the schema and must come back)
+            s["additionalItems"] = r.choice([False, True])
         if self.coin(0.3):
             s["uniqueItems"] = True
         if self.coin(0.25):
@@ -375,6 +379,18 @@ FIXED = [
      "required": ["p", "q", "r"], "additionalProperties": True},
     {"type": "object", "properties": {"p": {"type": "integer", "default": 1}}},
     {"type": "object"},
+    # additionalItems x {single-schema items, no items, positional items} x {true, false}, top level and nested
+    {"type": "object", "properties": {
+        "a": {"type": "array", "items": {"type": "integer"}, "additionalItems": False},
+        "b": {"type": "array", "items": {"type": "string"}, "additionalItems": True, "maxItems": 3},
+        "c": {"type": "array", "additionalItems": False},
+        "d": {"type": "array", "additionalItems": True, "uniqueItems": True},
+        "e": {"type": "array", "items": [{"type": "integer"}], "additionalItems": False},
+        "f": {"type": "array", "items": {"type": "array", "items": {"type": "boolean"}, "additionalItems": False}},
+        "g": {"type": "object", "properties": {"h": {"type": "array", "additionalItems": False}, "i": {"type": "integer"}},
+              "required": ["h"], "additionalProperties": True},
+        "j": {"anyOf": [{"type": "array", "items": {"type": "integer"}, "additionalItems": True}, {"type": "string"}]}},
+     "required": ["a", "c"], "additionalProperties": True},
 ]
 
 
@@ -389,6 +405,14 @@ def fixed_cases():
                 "defs": [["DF_0", {"type": "object", "properties": {"x": {"$ref": "#/definitions/DF_1"}}, "required": ["x"], "additionalProperties": True}],
                          ["DF_1", {"type": "object", "properties": {"y": {"type": "integer"}, "z": {"type": "string"}}, "required": ["y"], "additionalProperties": True}]],
                 "api": "write", "docseed": 99})
+    # additionalItems on non-positional arrays inside a definition (mapped back through _map_class_reference)
+    out.append({"suite": "schemacode", "name": "F_addl",
+                "schema": {"type": "object", "properties": {"p": {"$ref": "#/definitions/addl_def"}, "q": {"type": "array", "items": {"$ref": "#/definitions/addl_def"}, "additionalItems": True}},
+                           "required": ["p"], "additionalProperties": True},
+                "defs": [["addl_def", {"type": "object", "properties": {"x": {"type": "array", "items": {"type": "number"}, "additionalItems": False},
+                                                                         "y": {"type": "array", "additionalItems": True}, "z": {"type": "integer"}},
+                                       "required": ["x"], "additionalProperties": True}]],
+                "api": "struct", "docseed": 98})
     return out
 
 
@@ -473,8 +497,8 @@ def norm_schema(s):
             out[k] = sorted(v)
         elif k in ("exclusiveMaximum", "uniqueItems") and v is False:
             continue
-        elif k == "additionalItems" and v is True:
-            continue
+        elif k == "additionalItems" and v is True and isinstance(s.get("items"), list):
+            continue      # positional items: absent = true (the model's AST carries a Bool); otherwise literal
         elif k in ("description", "$schema"):
             continue
         elif k == "properties":
@@ -485,6 +509,27 @@ def norm_schema(s):
             out[k] = norm_schema(v)
     if "properties" in out and "additionalProperties" not in out:
         out["additionalProperties"] = True
+    return out
+
+
+def strip_nonpositional_addl(s):
+    """the model's declarations (Core/Field.lean, dump_field) do not carry `additionalItems` of an Array whose
+    `items` is a single field or absent (it has no runtime effect): for the model-vs-real comparison only, the
+    keyword is erased there on both sides.  The round-trip ORACLE (real result vs original schema) keeps it."""
+    if isinstance(s, list):
+        return [strip_nonpositional_addl(x) for x in s]
+    if not isinstance(s, dict):
+        return s
+    out = {}
+    for k, v in s.items():
+        if k == "properties" and isinstance(v, dict):
+            out[k] = {n: strip_nonpositional_addl(x) for n, x in v.items()}       # names are not keywords
+        elif k in ("enum", "default"):
+            out[k] = v
+        else:
+            out[k] = strip_nonpositional_addl(v)
+    if out.get("type") == "array" and not isinstance(out.get("items"), list):
+        out.pop("additionalItems", None)
     return out
 
 
@@ -756,10 +801,10 @@ def judge(case, impl, model):
         if "unsupported" in json.dumps(mback) or "unsupported" in json.dumps(mdefs):
             if "back_err" not in impl:
                 msgs.append("model: structure_to_schema raises, real returns " + json.dumps(got)[:300])
-        elif got != mback:
+        elif strip_nonpositional_addl(got) != strip_nonpositional_addl(mback):
             msgs.append("structure_to_schema(generated class): real " + json.dumps(got, ensure_ascii=False)[:500]
                         + " model " + json.dumps(mback, ensure_ascii=False)[:500])
-        elif got_defs != mdefs:
+        elif strip_nonpositional_addl(got_defs) != strip_nonpositional_addl(mdefs):
             msgs.append("structure_to_schema(generated class) definitions: real " + json.dumps(got_defs, ensure_ascii=False)[:500]
                         + " model " + json.dumps(mdefs, ensure_ascii=False)[:500])
     if not unfaithful and (got != want or (got_defs is not None and got_defs != want_defs)):
